@@ -144,6 +144,8 @@ func strClass(t, x, module string) (string, bool) {
 		return module + ":" + nameFor(t, 0), true
 	case "UNKNOWNNAME":
 		return "PURPLE", true
+	case "COLONS":
+		return "x:y:" + nameFor(t, 0), true
 	case "B64":
 		return "AP8Q", true
 	case "BADB64":
@@ -206,6 +208,8 @@ func jsonText(c *DecCase, module string) (string, bool) {
 		switch c.X {
 		case "FRAC":
 			return "1.5", true
+		case "NEGFRAC":
+			return "-0.5", true
 		case "HUGE":
 			return "1e300", true
 		}
@@ -496,6 +500,10 @@ func keyValues(cp *conc.Corpus, t, v string) []string {
 		return map[string][]string{"UENUM": {"enum:E1", "enum:E2"}, "UUINT": {"uint32:9", "uint32:0", "uint32:4294967295"}}[v]
 	case "u-bs":
 		return map[string][]string{"UBOOL": {"bool:true", "bool:false"}, "USTRBOOLISH": {"str:True", "str:1", "str:t", "str:FALSE", "str:0", "str:abc"}}[v]
+	case "u-ul":
+		return map[string][]string{"UU64": {"uint64:5", "uint64:0", "uint64:18446744073709551615"}, "UI64NEG": {"int64:-3", "int64:-9223372036854775808"}}[v]
+	case "u-lb":
+		return map[string][]string{"UI64": {"int64:0", "int64:-7", "int64:9007199254740993"}, "UBOOL": {"bool:true", "bool:false"}}[v]
 	}
 	return nil
 }
